@@ -6,6 +6,7 @@ import (
 	"runtime/debug"
 	"sort"
 	"strings"
+	"time"
 
 	"golang.org/x/tools/go/ssa"
 
@@ -31,6 +32,7 @@ func newExec(p *Program, fc *FuncContract) *Exec {
 		initHeaps: map[string]*smt.Term{}, heapSorts: map[string]string{}, strLits: map[string]*smt.Term{},
 		Assumed: map[string]bool{}, oblNames: map[string]int{}, ufDecl: map[string]bool{}, maxInline: 8, defUnroll: 4,
 		rangeOf: map[*ssa.Range]types.Type{}, exprTypes: map[Expr]types.Type{}}
+	x.deadline = time.Now().Add(90 * time.Second)
 	if v, ok := fc.Opts["unroll"]; ok {
 		fmt.Sscanf(v, "%d", &x.defUnroll)
 	}
@@ -376,11 +378,19 @@ func (r *FuncResult) SMTTextWith(o *Obligation, extra []*smt.Term, filter bool) 
 }
 
 func containsQuant(t *smt.Term) bool {
+	return containsQuantM(t, map[int]bool{})
+}
+
+func containsQuantM(t *smt.Term, seen map[int]bool) bool {
 	if t.Op == "q" {
 		return true
 	}
+	if seen[t.ID] {
+		return false
+	}
+	seen[t.ID] = true
 	for _, a := range t.Args {
-		if containsQuant(a) {
+		if containsQuantM(a, seen) {
 			return true
 		}
 	}
@@ -460,6 +470,9 @@ func (x *Exec) Builder() *smt.Builder { return x.b }
 // applyUses instantiates proved lemmas: `use name(args)` obliges the lemma's
 // hypotheses for the arguments and then assumes its conclusions.
 func (x *Exec) applyUses(ce *CEnv, fc *FuncContract) {
+	for _, name := range fc.UseAll {
+		x.useAll(ce, name)
+	}
 	for ui, u := range fc.Uses {
 		call, ok := u.E.(*ECall)
 		if !ok {
@@ -495,4 +508,58 @@ func (x *Exec) applyUses(ce *CEnv, fc *FuncContract) {
 		}
 		x.note("uses lemma " + id.Name + " (proved separately as its own obligation)")
 	}
+}
+
+// useAll assumes a separately proved lemma in universally quantified form,
+// triggered by the uninterpreted applications occurring in its conclusion.
+func (x *Exec) useAll(ce *CEnv, name string) {
+	lem := x.prog.Contracts.Lemmas[name]
+	if lem == nil {
+		panic(evalErr{"unknown lemma " + name})
+	}
+	lpkg := x.prog.pkgOfFile(lem.File)
+	vars := map[string]*Val{}
+	var bvs []*smt.Term
+	x.qseq++
+	for _, prm := range lem.Params {
+		t := x.prog.resolveType(lpkg, prm.Type)
+		if t == nil {
+			panic(evalErr{"lemma " + name + ": cannot resolve type " + prm.Type})
+		}
+		bv := x.b.BoundVar(fmt.Sprintf("%s!u%d", prm.Name, x.qseq), x.so.SortOf(t))
+		vars[prm.Name] = &Val{Typ: t, T: bv}
+		bvs = append(bvs, bv)
+	}
+	le := &CEnv{x: x, st: ce.st, old: ce.st, vars: vars, guard: x.b.True, fc: lem, pkg: lpkg, depth: 3}
+	var pre []*smt.Term
+	for _, r := range lem.Requires {
+		pre = append(pre, x.evalBool(le, r))
+	}
+	for _, e := range lem.Ensures {
+		body := x.evalBool(le, e)
+		// patterns: maximal uninterpreted applications mentioning bound variables
+		var pats []*smt.Term
+		seen := map[int]bool{}
+		var walk func(t *smt.Term)
+		walk = func(t *smt.Term) {
+			if !t.Bound || seen[t.ID] {
+				return
+			}
+			seen[t.ID] = true
+			if len(t.Args) > 0 && (strings.HasPrefix(t.Op, "pf_") || strings.HasPrefix(t.Op, "m_") || strings.HasPrefix(t.Op, "apply_")) {
+				pats = append(pats, t)
+				return
+			}
+			for _, a := range t.Args {
+				walk(a)
+			}
+		}
+		walk(body)
+		q := x.b.Quant("forall", bvs, x.b.Implies(x.b.And(pre...), body))
+		if len(pats) > 0 {
+			q = x.b.QuantMulti("forall", bvs, x.b.Implies(x.b.And(pre...), body), pats)
+		}
+		x.hyps = append(x.hyps, q)
+	}
+	x.note("assumes lemma " + name + " in quantified form (proved separately as its own obligation)")
 }
